@@ -569,6 +569,9 @@ package go_clipper2
 //@   props C01
 //@   nosafety
 //@   requires ae != nil && (ae.windDx == 1 || ae.windDx == -1)
+//@   loop 0 step [walk-left] ae2 == old(ae2).prevInAEL
+//@   loop 1 step [other-type-parity] ae2 == old(ae2).nextInAEL && ae.windCount2 == ite(old(ae2).localMin.PolyType != pt && !old(ae2).localMin.IsOpen, ite(old(ae.windCount2) == 0, 1, 0), old(ae.windCount2))
+//@   loop 2 step [other-type-winding] ae2 == old(ae2).nextInAEL && ae.windCount2 == old(ae.windCount2) + ite(old(ae2).localMin.PolyType != pt && !old(ae2).localMin.IsOpen, old(ae2).windDx, 0)
 //@   assert after ae.windCount#0 [first-edge] ae.windCount == ae.windDx && leftW(ae.windCount, ae.windDx) == 0
 //@   assert after ae.windCount#2 [handover-2] (ae2 != ae && repOK(ae2.windCount, ae2.windDx)) ==> (leftW(ae.windCount, ae.windDx) == rightW(ae2.windCount, ae2.windDx) && ae.windCount != 0)
 //@   assert after ae.windCount#3 [handover-3] (ae2 != ae && repOK(ae2.windCount, ae2.windDx)) ==> (leftW(ae.windCount, ae.windDx) == rightW(ae2.windCount, ae2.windDx) && ae.windCount != 0)
@@ -586,3 +589,14 @@ package go_clipper2
 //@   assert after e2WindCountIs0or1 [transfer-same-type-evenodd] (ae1.localMin.PolyType == ae2.localMin.PolyType && c.fillRule == EvenOdd) ==> (ae1.windCount == old(ae2.windCount) && ae2.windCount == old(ae1.windCount) && ae1.windCount2 == old(ae1.windCount2) && ae2.windCount2 == old(ae2.windCount2))
 //@   assert after e2WindCountIs0or1 [transfer-other-type] (ae1.localMin.PolyType != ae2.localMin.PolyType && c.fillRule != EvenOdd) ==> (ae1.windCount2 == old(ae1.windCount2) + ae2.windDx && ae2.windCount2 == old(ae2.windCount2) - ae1.windDx && ae1.windCount == old(ae1.windCount) && ae2.windCount == old(ae2.windCount))
 //@   assert after e2WindCountIs0or1 [transfer-other-type-evenodd] (ae1.localMin.PolyType != ae2.localMin.PolyType && c.fillRule == EvenOdd && (old(ae1.windCount2) == 0 || old(ae1.windCount2) == 1) && (old(ae2.windCount2) == 0 || old(ae2.windCount2) == 1)) ==> (ae1.windCount2 == 1 - old(ae1.windCount2) && ae2.windCount2 == 1 - old(ae2.windCount2) && ae1.windCount == old(ae1.windCount) && ae2.windCount == old(ae2.windCount))
+
+// open-path edges: the winding numbers an open edge starts with count exactly the closed
+// edges to its left (open subject edges contribute nothing)
+//@ spec isClosedSubj(e *Active) bool = e.localMin.PolyType != Clip && !e.localMin.IsOpen
+
+//@ func clipperBase.setWindCountForOpenPathEdge
+//@   props C09
+//@   nosafety
+//@   requires ae != nil
+//@   loop 0 step [count-evenodd] ae2 == old(ae2).nextInAEL && cnt2 == old(cnt2) + ite(old(ae2).localMin.PolyType == Clip, 1, 0) && cnt1 == old(cnt1) + ite(isClosedSubj(old(ae2)), 1, 0)
+//@   loop 1 step [count-winding] ae2 == old(ae2).nextInAEL && ae.windCount2 == old(ae.windCount2) + ite(old(ae2).localMin.PolyType == Clip, old(ae2).windDx, 0) && ae.windCount == old(ae.windCount) + ite(isClosedSubj(old(ae2)), old(ae2).windDx, 0)
